@@ -76,6 +76,9 @@ class Host:
         self.unknown_src = UDPv4Address("66.66.66.66", 6666)
         # make the friend a verified peer so that the 'verified source' branch of on_packet is taken
         self.node.network.add_verified_peer(Peer(self.friend.my_peer.public_key.key_to_bin(), self.known_src))
+        for o in self.ovs.values():   # DHT overlays keep a Network of their own
+            if o.network is not self.node.network:
+                o.network.add_verified_peer(Peer(self.friend.my_peer.public_key.key_to_bin(), self.known_src))
         self.prefixes = {n: o.get_prefix() for n, o in self.ovs.items()}
         self.tag = tag
 
